@@ -6,7 +6,7 @@ VERIF = os.path.dirname(os.path.dirname(os.path.abspath(__file__)))
 
 def key(r):
     m = re.findall(r"\d+", r)
-    return [int(x) for x in m] + [r]
+    return ([int(x) for x in m] + [10 ** 6] * 3)[:3] + [r]      # R05.T (no second number) sorts after the numbered rules
 lines = ["| property | rule | statement | obligations on /repo (hold / fail) |", "|---|---|---|---|"]
 for f in sorted(glob.glob(os.path.join(VERIF, "evidence", "C*.json"))):
     d = json.load(open(f))
